@@ -34,6 +34,12 @@ pub fn verif_root() -> String {
     std::env::var("VERIF_ROOT").unwrap_or_else(|_| "/verif".to_string())
 }
 
+/// Source tree of the subject. Always /repo for the registered checks; VERIF_REPO is only set by the seeded-change
+/// lab (scripts/seedlab.sh), which builds the engine against a scratch worktree so that /repo is never patched.
+pub fn repo_root() -> String {
+    std::env::var("VERIF_REPO").unwrap_or_else(|_| "/repo".to_string())
+}
+
 #[derive(Clone, Debug)]
 pub struct Violation {
     /// stable, specific class of the failure (what known_findings.json matches on)
